@@ -21,7 +21,7 @@ def run_tlc(d, module, cfg, env=None, workers=1, timeout=900, extra=(), heap="4g
     """returns (returncode, stdout text, seconds)"""
     e = dict(os.environ)
     e.update(env or {})
-    opts = "-Xmx%s -XX:+UseParallelGC" % heap
+    opts = "-Xmx%s -Xss512m -XX:+UseParallelGC" % heap
     if deque:
         opts += " -Dtlc2.tool.queue.IStateQueue=StateDeque"
     e["JAVA_TOOL_OPTIONS"] = opts
